@@ -90,6 +90,9 @@ func parseUnix3Header(hdr []byte) (uint32, uint32, error) {
 	}
 
 	gidSize := hdr[2+uidSize]
+	if len(hdr) < 3+int(uidSize)+int(gidSize) {
+		return 0, 0, Errorf(rio.ErrWareCorrupt, "Corrupt zip File Header. Too Short Unix3 Extra Header")
+	}
 	gid := uint32(0)
 	if gidSize == 2 {
 		gid = uint32(binary.LittleEndian.Uint16(hdr[3+uidSize : 3+uidSize+2]))
